@@ -253,6 +253,25 @@ PROPS["C24"]["assumptions"] = PROPS["C24"]["assumptions"] + [
 ]
 
 
+# C18: the argument computation is outside the deductive claim (not_covered); an end-to-end bounded twin stands in for it.
+PROPS["C18"]["standins"] = [
+    ("c18.umask", "random call blocks (<= 7 definitions: copies, constants, add/sub/and/or/xor/mult, extensions, 4/8-byte stack stores and loads) through the "
+                  "public cwe_560::check_cwe, compared with a concrete interpreter written from the property statement: known constant not chmod-style => no "
+                  "warning; exactly followed constant > 0o177 and != 0o777 => one warning at the call"),
+    ("c18.sizeof", "the same blocks through the public cwe_467::check_cwe with a two-parameter symbol: a parameter exactly 8 => one warning; all parameters known "
+                   "constants != 8 => none"),
+]
+
+PROPS["C18"]["level_text"] = PROPS["C18"]["level_text"] + (
+    " BOUNDED stand-in for that uncovered part (run on every check, labelled bounded, never counted as proved): random call blocks of up to 7 "
+    "definitions (copies, constants, add/sub/and/or/xor/mult, zero/sign extension, 4- and 8-byte stack stores and loads) are run end to end through the "
+    "public check_cwe of CWE-560 and CWE-467 of the real crate and compared with a concrete interpreter written from the property statement.")
+PROPS["C18"]["level_note"] = PROPS["C18"]["level_note"] + (
+    " The stand-in twins c18.umask / c18.sizeof (replay/src/c18.rs) decide only blocks whose outcome the property statement determines: a parameter that is a "
+    "known constant outside the warning range must not warn (whatever the analysis knows); a constant that reached the parameter through steps the value "
+    "analysis follows exactly (no multi-store loads) must warn. One open finding is recorded (known_findings.txt, class K1): a constant produced by an "
+    "IntAdd/IntSub/IntMult that overflows the signed range is lost by design of Interval::add/sub/signed_mul (Top on signed overflow), so the warning is missing.")
+
 
 def twin_for(unit, label):
     for frag, twin in TWINS.get(unit, []):
